@@ -9,7 +9,7 @@ INVARIANT Default
 INVARIANT Again
 CHECK_DEADLOCK FALSE
 CONSTANTS
-  Mutant = "type_keys_required"
+  Mutant = "default_not_evaluated"
   TDepth = 1
   PDepth = 1
   Wide = FALSE
